@@ -965,6 +965,34 @@ def wseq_method(ctx, r, s, name, args, kwargs):
         wseq_store(ctx, s, s["hi"], args[0])
         s["hi"] = s["hi"] + 1
         return None
+    if name == "clear":
+        s["hi"] = s["lo"]
+        return None
+    if name == "extend":
+        src = args[0]
+        items = concrete_iter(ctx, src)
+        if items is not None:
+            for x in items:
+                wseq_store(ctx, s, s["hi"], x)
+                s["hi"] = s["hi"] + 1
+            return None
+        if isinstance(src, Ref) and src.kind == "wseq" and ctx.st(src)["shape"] == s["shape"]:
+            # extend by a sequence of symbolic length: fresh arrays that agree with the old ones below hi and with the source above
+            o = ctx.st(src)
+            n = o["hi"] - o["lo"]
+            ctx.nfresh += 1
+            k = z3.Int("k!ext%d" % ctx.nfresh)
+            new = []
+            for j, (a, b) in enumerate(zip(s["arrs"], o["arrs"])):
+                ra = z3.Const("ext.a%d!%d" % (j, ctx.nfresh), a.sort())
+                ctx.vars[str(ra)] = ra
+                ctx.assume(z3.ForAll([k], z3.Implies(z3.And(s["lo"] <= k, k < s["hi"]), z3.Select(ra, k) == z3.Select(a, k))))
+                ctx.assume(z3.ForAll([k], z3.Implies(z3.And(s["hi"] <= k, k < s["hi"] + n), z3.Select(ra, k) == z3.Select(b, k - s["hi"] + o["lo"]))))
+                new.append(ra)
+            s["arrs"] = new
+            s["hi"] = s["hi"] + n
+            return None
+        raise Undecided("window-sequence extend by %r" % (src,))
     if name == "appendleft" and s.get("kind2") == "deque":
         s["lo"] = s["lo"] - 1
         wseq_store(ctx, s, s["lo"], args[0])
@@ -1048,6 +1076,10 @@ def symbolic_listcomp(interp, e, fr, it):
     ctx = interp.ctx
     if isinstance(it, Ref) and it.kind == "ext" and hasattr(ctx.st(it)["model"], "listcomp"):
         return ctx.st(it)["model"].listcomp(interp, e, fr, it)
+    g = e.generators[0]
+    if isinstance(it, Ref) and it.kind == "wseq" and not g.ifs and isinstance(g.target, ast.Name) and isinstance(e.elt, ast.Name) \
+            and e.elt.id == g.target.id:
+        return _wseq_copy(ctx, it, "list")          # [x for x in seq] is a copy of seq
     raise Undecided("list comprehension over %r" % (it,))
 
 
@@ -1124,10 +1156,15 @@ def isinstance_check(ctx, v, t):
         if v.cls is None:
             raise Undecided("isinstance of symbolic exception")
         return E.class_issub(v.cls, tt)
+    ty = ty_of(v)
+    if ty.startswith("u:"):
+        m = ctx.prog.usort_models.get(ty[2:])
+        if m is not None and hasattr(m, "isinstance"):
+            return m.isinstance(ctx, v, tt)
+        raise Undecided("isinstance of a value known only by identity (%s)" % ty)
     if isinstance(tt, ClassInfo):
         return False
     pm = {"int": int, "real": float, "bool": bool, "str": str, "bytes": bytes, "none": type(None), "tuple": tuple}
-    ty = ty_of(v)
     if ty in pm:
         return isinstance(tt, type) and issubclass(pm[ty], tt)
     if isinstance(v, (FuncVal, ModelFn)):
@@ -1192,6 +1229,8 @@ def call_foreign(interp, f, args, kwargs, fr, site):
     if isinstance(o, type) and issubclass(o, BaseException):
         return ExcVal(o, tuple(args))
     if o is pyb.len:
+        if isinstance(args[0], Ref) and args[0].kind == "obj":
+            return interp.call_value(interp.getattr(args[0], "__len__", fr), [], {}, fr, site)     # len(x) of a repo object: its __len__
         return length(ctx, args[0])
     if o is pyb.float:
         return to_real(ctx, args[0]) if args else 0.0
